@@ -47,6 +47,9 @@ pub struct Cfg {
     /// (exec_caller_from_witness: runs the program carried in witness 0)
     #[serde(default)]
     pub wlock_cells: usize,
+    /// proof of work: 0 = Pow::Dummy, 1 = Eaglesong, 2 = EaglesongBlake2b (real nonces are mined by the model)
+    #[serde(default)]
+    pub pow: u8,
 }
 
 impl Cfg {
@@ -70,6 +73,7 @@ impl Cfg {
             max_block_cycles: 3_500_000_000,
             max_block_proposals: 1_500,
             wlock_cells: 0,
+            pow: 0,
         }
     }
 }
@@ -77,6 +81,8 @@ impl Cfg {
 pub const MIN_EPOCH_LENGTH: u64 = 300;
 pub const MAX_EPOCH_LENGTH: u64 = 1800;
 pub const MAX_UNCLES: usize = 2;
+/// a header may be stamped at most this far ahead of the verifying node's clock
+pub const ALLOWED_FUTURE_MS: u64 = 15_000;
 pub const PROPOSER_RATIO: (u64, u64) = (4, 10);
 
 #[derive(Clone, Debug)]
@@ -266,6 +272,9 @@ pub struct World {
     pub tx_by_id: BTreeMap<ProposalShortId, usize>,
     /// planted gadget transactions by name (index into `txs`)
     pub planted: BTreeMap<String, usize>,
+    /// newest timestamp among the ordinary blocks (those not stamped relative to the node's clock):
+    /// the simulated node's clock starts there
+    pub max_ts: u64,
 }
 
 /// What to put into a new block.
@@ -295,6 +304,11 @@ pub struct Recipe {
     /// parent is neither on this chain nor an included uncle: the block becomes invalid)
     #[serde(default, skip_serializing_if = "Vec::is_empty")]
     pub plant: Vec<String>,
+    /// timestamp at a header-rule boundary instead of parent + ts_delta:
+    /// "median_plus_one" (lowest legal value), "future_bound" (latest value a node whose clock shows
+    /// the newest ordinary block's time still accepts: now + 15 s), "future_over" (one ms later)
+    #[serde(default, skip_serializing_if = "Option::is_none")]
+    pub ts_mode: Option<String>,
 }
 
 pub fn always_failure_bin() -> Bytes {
@@ -458,6 +472,11 @@ impl World {
             .max_block_cycles(cfg.max_block_cycles)
             .max_block_proposals_limit(cfg.max_block_proposals)
             .hardfork_switch(HardForks::new_dev())
+            .pow(match cfg.pow {
+                1 => ckb_pow::Pow::Eaglesong,
+                2 => ckb_pow::Pow::EaglesongBlake2b,
+                _ => ckb_pow::Pow::Dummy,
+            })
             .build();
 
         // genesis state
@@ -553,6 +572,7 @@ impl World {
             txs: Vec::new(),
             tx_by_id: BTreeMap::new(),
             planted: BTreeMap::new(),
+            max_ts: 0,
         }
     }
 
@@ -590,7 +610,7 @@ impl World {
         } else {
             self.cfg.primary_epoch_reward >> ((e.number + 1) / halving)
         };
-        if self.cfg.permanent_difficulty {
+        if self.cfg.permanent_difficulty && self.cfg.pow == 0 {
             let len = self.cfg.epoch_duration_target.div_ceil(8);
             return MEpoch {
                 number: e.number + 1,
@@ -607,7 +627,9 @@ impl World {
             &EpochIn {
                 length: e.length,
                 uncles: st.total_uncles - st.uncles_before_epoch,
-                duration_ms: tip.view.timestamp() - st.epoch_base_ts,
+                // a tail stamped before the last block of the previous epoch (legal: only the past-median bounds it)
+                // counts as the shortest possible epoch
+                duration_ms: tip.view.timestamp().saturating_sub(st.epoch_base_ts),
                 prev_hash_rate: e.prev_hash_rate.clone(),
                 difficulty: bigmath::compact_to_difficulty(tip.view.compact_target()),
             },
@@ -825,7 +847,12 @@ impl World {
         let ep = self.next_epoch(&pst);
         let frac = ep.fraction(number);
         let median = self.median_time(&pst.chain);
-        let ts = (pblock.view.timestamp() + recipe.ts_delta).max(median + 1);
+        let ts = match recipe.ts_mode.as_deref() {
+            Some("median_plus_one") => median + 1,
+            Some("future_bound") => (self.max_ts.max(self.cfg.genesis_ts + 1000) + ALLOWED_FUTURE_MS).max(median + 1),
+            Some("future_over") => (self.max_ts.max(self.cfg.genesis_ts + 1000) + ALLOWED_FUTURE_MS + 1).max(median + 1),
+            _ => (pblock.view.timestamp() + recipe.ts_delta).max(median + 1),
+        };
 
         // --- new transactions against the parent state (they enter the candidate pool)
         for _ in 0..recipe.new_txs {
@@ -1191,6 +1218,61 @@ impl World {
                     structural = Some("structural:uncle_unknown_parent");
                 }
             }
+            Some("uncle_too_many") => {
+                // three fresh siblings of the parent (legal uncles one by one): one more than the maximum
+                if let Some(gp) = pblock.parent {
+                    if pblock.epoch.number == ep.number && pblock.view.compact_target() == ep.compact {
+                        let n0 = self.blocks.len();
+                        let mut us = Vec::new();
+                        for k in 0..(MAX_UNCLES as u64 + 1) {
+                            let sib = self.build_plain(gp, recipe.ts_delta + 11 + k, recipe.seed ^ (0x7a11 + k), vec![], vec![]);
+                            us.push(self.blocks[sib].view.as_uncle());
+                        }
+                        self.rollback_to(n0);
+                        uncles = us;
+                        structural = Some("structural:uncle_too_many");
+                    }
+                }
+            }
+            Some("uncle_other_epoch") => {
+                // the first block of an epoch embeds a sibling of its parent, which belongs to the previous epoch
+                if let Some(gp) = pblock.parent {
+                    if pblock.epoch.number != ep.number {
+                        let n0 = self.blocks.len();
+                        let sib = self.build_plain(gp, recipe.ts_delta + 13, recipe.seed ^ 0xe90c, vec![], vec![]);
+                        let u = self.blocks[sib].view.as_uncle();
+                        self.rollback_to(n0);
+                        uncles = vec![u];
+                        structural = Some("structural:uncle_other_epoch");
+                    }
+                }
+            }
+            Some("uncle_pow_invalid") => {
+                // an otherwise legal uncle whose nonce does not meet its target
+                if self.cfg.pow != 0 {
+                    if let Some(gp) = pblock.parent {
+                        if pblock.epoch.number == ep.number && pblock.view.compact_target() == ep.compact {
+                            let n0 = self.blocks.len();
+                            let sib = self.build_plain(gp, recipe.ts_delta + 17, recipe.seed ^ 0x90bad, vec![], vec![]);
+                            let u = self.blocks[sib].view.as_uncle();
+                            self.rollback_to(n0);
+                            let h = u.header();
+                            let pow_hash = ckb_hash::blake2b_256(h.data().raw().as_slice());
+                            let mut nonce: u128 = h.nonce();
+                            while pow_ok(self.cfg.pow, &pow_hash, nonce, h.compact_target()) {
+                                nonce = nonce.wrapping_add(1);
+                            }
+                            let bad = packed::UncleBlock::new_builder()
+                                .header(h.data().as_builder().nonce(nonce.pack()).build())
+                                .proposals(u.data().proposals())
+                                .build()
+                                .into_view();
+                            uncles = vec![bad];
+                            structural = Some("structural:uncle_pow_invalid");
+                        }
+                    }
+                }
+            }
             Some("commit_immature_since") => {
                 // proposed in the window, inputs live and mature, but its absolute time lock is still ahead
                 let mut extra: Option<usize> = None;
@@ -1239,7 +1321,7 @@ impl World {
             }
             _ => {}
         }
-        if matches!(recipe.mutation.as_deref(), Some("uncle_sibling" | "uncle_duplicate" | "uncle_double_inclusion" | "commit_unproposed" | "uncle_unknown_parent" | "commit_immature_since")) {
+        if matches!(recipe.mutation.as_deref(), Some("uncle_sibling" | "uncle_duplicate" | "uncle_double_inclusion" | "commit_unproposed" | "uncle_unknown_parent" | "commit_immature_since" | "uncle_too_many" | "uncle_other_epoch" | "uncle_pow_invalid")) {
             recipe.mutation = structural.map(|s| s.to_string());
         }
         if recipe.mutation.is_none() {
@@ -1256,7 +1338,7 @@ impl World {
         let ep = self.next_epoch(&pst);
         let median = self.median_time(&pst.chain);
         let ts = (pblock.view.timestamp() + ts_delta).max(median + 1);
-        let recipe = Recipe { ts_delta, miner: 2, new_txs: 0, propose: 0, commit: 0, uncles: 0, ext_extra: 0, seed, mutation: None, plant: Vec::new() };
+        let recipe = Recipe { ts_delta, miner: 2, seed, ..Default::default() };
         self.assemble(parent, &pst, ep, ts, &recipe, committed, proposals, Vec::new())
     }
 
@@ -1304,11 +1386,13 @@ impl World {
             let (p, s, c, pr) = self.reward_opt(&pst.chain, target, true);
             let total = p + s + c + pr;
             let tview = &self.blocks[pst.chain[target as usize]].view;
-            let tlock = packed::CellbaseWitness::from_slice(
-                &tview.transactions()[0].witnesses().get(0).unwrap().raw_data(),
-            )
-            .unwrap()
-            .lock();
+            // (descendants of a block with a broken cellbase witness are invalid anyway)
+            let tlock = tview.transactions()[0]
+                .witnesses()
+                .get(0)
+                .and_then(|w| packed::CellbaseWitness::from_slice(&w.raw_data()).ok())
+                .map(|w| w.lock())
+                .unwrap_or_default();
             let out = CellOutput::new_builder()
                 .capacity(Capacity::shannons(total))
                 .lock(tlock)
@@ -1380,11 +1464,69 @@ impl World {
             .extension(Some(Bytes::from(ext).pack()));
         let mut invalid = None;
         if let Some(m) = &recipe.mutation {
-            let (b2, why) = mutate(bb, m, &all_txs, &dao, ep.compact, frac, ts, number, &mut r2);
+            let median = self.median_time(&pst.chain);
+            let (b2, why) = mutate(bb, m, &all_txs, &dao, ep.compact, frac, median, number, &mut r2);
             bb = b2;
             invalid = why;
         }
-        let view = bb.build();
+        let mut view = bb.build();
+        // commitments of the header to the body: broken after the block is put together
+        match recipe.mutation.as_deref() {
+            Some("tx_root") => {
+                view = view.as_advanced_builder().transactions_root(Byte32::from_slice(&r2.bytes(32)).unwrap()).build_unchecked();
+                invalid = Some("tx_root".into());
+            }
+            Some("proposals_hash") => {
+                view = view.as_advanced_builder().proposals_hash(Byte32::from_slice(&r2.bytes(32)).unwrap()).build_unchecked();
+                invalid = Some("proposals_hash".into());
+            }
+            Some("extra_hash") => {
+                view = view.as_advanced_builder().extra_hash(Byte32::from_slice(&r2.bytes(32)).unwrap()).build_unchecked();
+                invalid = Some("extra_hash".into());
+            }
+            Some("hdr_epoch_malformed") => {
+                // index == length
+                let bad = EpochNumberWithFraction::new_unchecked(frac.number(), frac.length(), frac.length());
+                let raw = view.data().header().raw().as_builder().epoch(bad.full_value()).build();
+                let header = view.data().header().as_builder().raw(raw).build();
+                view = with_header(&view, header);
+            }
+            Some("witness_root_only") => {
+                // a witness changed after the transactions root was computed: the root binds witnesses
+                if let Some(t) = all_txs.get(1) {
+                    let mut ws: Vec<packed::Bytes> = t.witnesses().into_iter().collect();
+                    ws.push(Bytes::from(vec![0x77]).pack());
+                    let t2 = t.as_advanced_builder().set_witnesses(ws).build();
+                    let mut txs = all_txs.clone();
+                    txs[1] = t2;
+                    view = view.as_advanced_builder().set_transactions(txs).build_unchecked();
+                    invalid = Some("witness_root_only".into());
+                }
+            }
+            _ => {}
+        }
+        // proof of work: the model mines a nonce (or, for the mutant, picks one that fails)
+        if self.cfg.pow != 0 {
+            let want_bad = recipe.mutation.as_deref() == Some("hdr_pow");
+            let pow_hash = ckb_hash::blake2b_256(view.data().header().raw().as_slice());
+            let mut nonce: u128 = view.nonce();
+            let mut tries = 0u64;
+            while pow_ok(self.cfg.pow, &pow_hash, nonce, view.compact_target()) == want_bad {
+                nonce = nonce.wrapping_add(1u128 << 64).wrapping_add(0x9e37_79b9);
+                tries += 1;
+                if tries > 50_000_000 {
+                    break;
+                }
+            }
+            let header = view.data().header().as_builder().nonce(nonce).build();
+            view = with_header(&view, header);
+            if want_bad {
+                invalid = Some("hdr_pow".into());
+            }
+        }
+        if !matches!(recipe.ts_mode.as_deref(), Some("future_bound" | "future_over")) {
+            self.max_ts = self.max_ts.max(view.timestamp());
+        }
         let hash = view.hash();
         if let Some(i) = self.by_hash.get(&hash) {
             return *i;
@@ -1449,6 +1591,47 @@ impl World {
         idx
     }
 
+    /// The header rules of the property text for block `idx`, judged at node time `now`
+    /// (milliseconds): Err(kind) names the first rule broken. Kinds "pow", "number", "ts_too_old",
+    /// "ts_too_new" concern rules that only the header stage of the pipeline checks; the epoch
+    /// kinds are checked again, in full, by the chain service.
+    pub fn header_verdict(&self, idx: usize, now: u64) -> Result<(), &'static str> {
+        let b = &self.blocks[idx];
+        let h = b.view.header();
+        let p = b.parent.expect("not genesis");
+        let ph = self.blocks[p].view.header();
+        let pow_hash = ckb_hash::blake2b_256(h.data().raw().as_slice());
+        if !pow_ok(self.cfg.pow, &pow_hash, h.nonce(), h.compact_target()) {
+            return Err("pow");
+        }
+        if h.number() != ph.number() + 1 {
+            return Err("number");
+        }
+        let e = h.epoch();
+        if e.length() == 0 || e.index() >= e.length() {
+            return Err("epoch_malformed");
+        }
+        if ph.number() != 0 {
+            let pe = ph.epoch();
+            let ok = if pe.index() + 1 == pe.length() {
+                e.number() == pe.number() + 1 && e.index() == 0
+            } else {
+                e.number() == pe.number() && e.index() == pe.index() + 1 && e.length() == pe.length()
+            };
+            if !ok {
+                return Err("epoch_not_continuous");
+            }
+        }
+        let median = self.median_time(&self.chain_of(p));
+        if h.timestamp() <= median {
+            return Err("ts_too_old");
+        }
+        if h.timestamp() > now + ALLOWED_FUTURE_MS {
+            return Err("ts_too_new");
+        }
+        Ok(())
+    }
+
     /// total difficulty of the chain ending at block idx (valid or not), by parent walk
     pub fn total_difficulty(&self, idx: usize) -> BigUint {
         let mut t = BigUint::zero();
@@ -1470,6 +1653,38 @@ impl World {
         v.reverse();
         v
     }
+}
+
+/// the same block with another header, no field recomputed (the view builders refuse some mutants)
+pub fn with_header(view: &BlockView, header: packed::Header) -> BlockView {
+    let data = view.data();
+    if view.extension().is_some() {
+        packed::BlockV1::from_slice(data.as_slice()).unwrap().as_builder().header(header).build().as_v0().into_view_without_reset_header()
+    } else {
+        data.as_builder().header(header).build().into_view_without_reset_header()
+    }
+}
+
+/// RFC 0010 / pow rule written out: eaglesong over (pow hash ‖ nonce little-endian), for the
+/// second engine hashed once more with blake2b; read as a big-endian number it must not exceed
+/// the target that the header's own compact field encodes (a zero or overflowing target never passes)
+pub fn pow_ok(kind: u8, pow_hash: &[u8; 32], nonce: u128, compact: u32) -> bool {
+    if kind == 0 {
+        return true;
+    }
+    let mut msg = [0u8; 48];
+    msg[..32].copy_from_slice(pow_hash);
+    msg[32..].copy_from_slice(&nonce.to_le_bytes());
+    let mut out = [0u8; 32];
+    eaglesong::eaglesong(&msg, &mut out);
+    if kind == 2 {
+        out = ckb_hash::blake2b_256(out);
+    }
+    let (target, overflow) = bigmath::compact_to_target(compact);
+    if target.is_zero() || overflow {
+        return false;
+    }
+    BigUint::from_bytes_be(&out) <= target
 }
 
 pub fn leaf_digest(h: &HeaderView) -> packed::HeaderDigest {
@@ -1551,11 +1766,10 @@ pub fn mutate(
     dao: &Dao,
     compact: u32,
     frac: EpochNumberWithFraction,
-    ts: u64,
+    median: u64,
     number: u64,
     rng: &mut simcore::Rng,
 ) -> (BlockBuilder, Option<String>) {
-    let _ = (ts, number);
     if m.starts_with("structural:") {
         // the block was put together with a rule-breaking uncle list / commit list
         return (bb, Some(m.into()));
@@ -1660,6 +1874,99 @@ pub fn mutate(
                     (bb.set_transactions(txs), Some(m.into()))
                 }
             }
+        }
+        // ---- header rules (checked by the header stage of the pipeline)
+        "hdr_ts_median" => (bb.timestamp(median), Some(m.into())),
+        "hdr_number" => (bb.number(number + 1), Some(m.into())),
+        // (the field is patched after the block is put together: the builder refuses such a value)
+        "hdr_epoch_malformed" => (bb, Some(m.into())),
+        // the nonce is chosen after the block is put together
+        "hdr_pow" => (bb, None),
+        // ---- structure: one leading cellbase of the prescribed shape
+        "two_cellbases" => {
+            let extra = TransactionBuilder::default().input(CellInput::new_cellbase_input(number)).witness(all_txs[0].witnesses().get(0).unwrap()).build();
+            let mut txs = all_txs.to_vec();
+            txs.insert(1, extra);
+            (bb.set_transactions(txs), Some(m.into()))
+        }
+        "cellbase_not_first" => {
+            if all_txs.len() < 2 {
+                return (bb, None);
+            }
+            let mut txs = all_txs.to_vec();
+            txs.swap(0, 1);
+            (bb.set_transactions(txs), Some(m.into()))
+        }
+        "cellbase_two_outputs" => {
+            let cb = &all_txs[0];
+            if cb.outputs().is_empty() {
+                return (bb, None);
+            }
+            let o = cb.outputs().get(0).unwrap();
+            let c: Capacity = o.capacity().into();
+            let half = c.as_u64() / 2;
+            if half < occupied(&o, 0) {
+                return (bb, None);
+            }
+            let ncb = cb
+                .as_advanced_builder()
+                .set_outputs(vec![o.clone().as_builder().capacity(Capacity::shannons(half)).build(), o.as_builder().capacity(Capacity::shannons(c.as_u64() - half)).build()])
+                .set_outputs_data(vec![Bytes::new().pack(), Bytes::new().pack()])
+                .build();
+            let mut txs = all_txs.to_vec();
+            txs[0] = ncb;
+            (bb.set_transactions(txs), Some(m.into()))
+        }
+        "cellbase_output_data" => {
+            let cb = &all_txs[0];
+            if cb.outputs().is_empty() {
+                return (bb, None);
+            }
+            let ncb = cb.as_advanced_builder().set_outputs_data(vec![Bytes::from(vec![1u8]).pack()]).build();
+            let mut txs = all_txs.to_vec();
+            txs[0] = ncb;
+            (bb.set_transactions(txs), Some(m.into()))
+        }
+        "cellbase_type_script" => {
+            let cb = &all_txs[0];
+            if cb.outputs().is_empty() {
+                return (bb, None);
+            }
+            let o = cb.outputs().get(0).unwrap();
+            let t = Script::new_builder().code_hash(o.lock().code_hash()).hash_type(ScriptHashType::Data).build();
+            let ncb = cb.as_advanced_builder().set_outputs(vec![o.as_builder().type_(Some(t).pack()).build()]).build();
+            let mut txs = all_txs.to_vec();
+            txs[0] = ncb;
+            (bb.set_transactions(txs), Some(m.into()))
+        }
+        "cellbase_input_since" => {
+            let cb = &all_txs[0];
+            let ncb = cb.as_advanced_builder().set_inputs(vec![CellInput::new_cellbase_input(number + 1)]).build();
+            let mut txs = all_txs.to_vec();
+            txs[0] = ncb;
+            (bb.set_transactions(txs), Some(m.into()))
+        }
+        "cellbase_witness_garbage" => {
+            let cb = &all_txs[0];
+            let ncb = cb.as_advanced_builder().set_witnesses(vec![Bytes::from(rng.bytes(7)).pack()]).build();
+            let mut txs = all_txs.to_vec();
+            txs[0] = ncb;
+            (bb.set_transactions(txs), Some(m.into()))
+        }
+        "cellbase_no_witness" => {
+            let cb = &all_txs[0];
+            let ncb = cb.as_advanced_builder().set_witnesses(vec![]).build();
+            let mut txs = all_txs.to_vec();
+            txs[0] = ncb;
+            (bb.set_transactions(txs), Some(m.into()))
+        }
+        "dup_tx" => {
+            if all_txs.len() < 2 {
+                return (bb, None);
+            }
+            let mut txs = all_txs.to_vec();
+            txs.push(all_txs[1].clone());
+            (bb.set_transactions(txs), Some(m.into()))
         }
         "no_extension" => (bb.extension(None), Some(m.into())),
         "bad_chain_root" => {
